@@ -13,7 +13,7 @@ import json, os
 from fractions import Fraction as Fr
 from core import *
 
-NEEDS = ["Paths", "PathsProofs", "Corr"]
+NEEDS = ["Paths", "PathsProofs", "Corr", "IndexedEquiv"]   # IndexedEquiv: E2 tie of _get_indexed_var_str
 OPVARS = {"op": ["x", "k"], "oq": ["x", "z", "k"], "ou": ["u", "k"]}
 STATEVARS = {"op": {"x": 0}, "oq": {"x": 0, "z": 128}, "ou": {"u": 64}}     # rate = k + offset
 ZOFF = 128           # z' = k + 128 : the z rates never coincide with an x rate
@@ -118,8 +118,11 @@ def build_edge(case):
     edge = EdgeTemplate(name="ce", path=None, operators=[co])
     names = [n for n, _ in case["nodes"]]
     nodes = {n: NodeTemplate(name=n, path=None, operators={po: {"u": float(Fr(v))}}) for n, v in case["nodes"]}
-    edges = [(f"{names[s]}/po/u", f"{names[t]}/po/s_in", edge,
-              {"weight": float(Fr(w)), "ce/co/u_s": "source", "ce/co/u_t": f"{names[r]}/po/u"}) for s, t, w, r in case["edges"]]
+    if case.get("plain"):      # the same edges without a template: u_t' = sum of w * u_s
+        edges = [(f"{names[s]}/po/u", f"{names[t]}/po/s_in", None, {"weight": float(Fr(w))}) for s, t, w, r in case["edges"]]
+    else:
+        edges = [(f"{names[s]}/po/u", f"{names[t]}/po/s_in", edge,
+                  {"weight": float(Fr(w)), "ce/co/u_s": "source", "ce/co/u_t": f"{names[r]}/po/u"}) for s, t, w, r in case["edges"]]
     return CircuitTemplate(name="c", path=None, nodes=nodes, edges=edges)
 
 def impl_edge(case):
@@ -297,13 +300,28 @@ def gen_run(rng, in_guard_only=False):
     return dict(kind="run", tree=tree, form=form, reqs=reqs, vectorize=True if "pops" in tree else rng.random() < 0.65)
 
 def gen_edge(rng):
-    n = rng.randint(2, 4)
-    vals = rng.sample(range(2, 40), n)
-    nodes = [[NNAMES[i], str(Fr(v, 2))] for i, v in enumerate(vals)]
+    n = rng.choice([2, 3, 4, 4, 5, 6, 10, 11, 12])      # >= 10 units: index lists are passed as named constants
+    vals = rng.sample(range(2, 60), n)
+    nodes = [[(NNAMES + [f"m{i}" for i in range(6)])[i], str(Fr(v, 2))] for i, v in enumerate(vals)]
     pairs = [(s, t) for s in range(n) for t in range(n) if s != t]
     rng.shuffle(pairs)
     edges = [[s, t, str(Fr(rng.choice([-3, -2, -1, 1, 2, 3, 5]), 2)), rng.randrange(n)] for s, t in pairs[:rng.randint(1, min(4, len(pairs)))]]
-    return dict(kind="edge", nodes=nodes, edges=edges, vectorize=rng.random() < 0.7)
+    if n >= 4 and (n >= 10 or rng.random() < 0.5):
+        # one edge per node with the sources (or the targets, or the path-mapped extra sources) in an order that is the identity at
+        # both ends and permuted in the middle only: an index list 0, .., n-1 that must NOT be taken for "the whole variable"
+        order = [0] + rng.sample(range(1, n - 1), n - 2) + [n - 1]
+        if order == sorted(order):
+            order[1], order[2] = order[2], order[1]
+        w = lambda: str(Fr(rng.choice([-3, -2, -1, 1, 2, 3, 5]), 2))
+        other = lambda i: rng.choice([j for j in range(n) if j != i])
+        kind = rng.choice(["source", "target", "ref"])
+        if kind == "source":
+            edges = [[i, other(i), w(), rng.randrange(n)] for i in order]
+        elif kind == "target":
+            edges = [[other(i), i, w(), rng.randrange(n)] for i in order]
+        else:
+            edges = [[i, (i + 1) % n, w(), r] for i, r in zip(range(n), order)]
+    return dict(kind="edge", nodes=nodes, edges=edges, vectorize=rng.random() < 0.7, plain=rng.random() < 0.35)
 
 def run_variants(rng, case):
     """the same request on the same circuit with shuffled declaration order / the other vectorize setting"""
@@ -467,7 +485,9 @@ def coq_run(case, out):
 def coq_edge(case, out):
     names = [n for n, _ in case["nodes"]]
     var = lambda i: cpath([names[i], "po", "u"])
-    es = clist([f"({var(s)}, {var(t)}, {cq(w)}, {var(r)})" for s, t, w, r in case["edges"]])
+    # a plain edge is the coupling m = u_s*u_t + u_s with u_t read from a path that names nothing (value 0 on both sides)
+    ref = (lambda r: cpath(["none"])) if case.get("plain") else var
+    es = clist([f"({var(s)}, {var(t)}, {cq(w)}, {ref(r)})" for s, t, w, r in case["edges"]])
     vals = clist([f"({var(i)}, {cq(v)})" for i, (_, v) in enumerate(case["nodes"])])
     nodes = clist([var(i) for i in range(len(names))])
     if "raised" in out:
